@@ -8,6 +8,7 @@ set of N distinct points in any dimension under any metric; replays use the publ
 callable-metric API with the model's distance table.
 """
 import itertools
+import os
 import math
 from fractions import Fraction
 
@@ -59,6 +60,18 @@ class Metric:
             for p, q in itertools.combinations(pairs, 2):
                 ctx.add(D(*p) != D(*q))
         self.calls = 0
+        self.returned = []           # (array handed to the code under test, its cells at that moment)
+
+    def untouched(self):
+        """the arrays the metric handed out are the metric's (a metric may return views of its own table): the
+        code under test must not write into them"""
+        conds = []
+        for arr, orig in self.returned:
+            now = list(arr.cells())
+            if len(now) != len(orig):
+                return False
+            conds += [a == b for a, b in zip(now, orig)]
+        return conj(conds) if conds else True
 
     def d(self, i, j):
         if not isinstance(i, SVal) and not isinstance(j, SVal) and int(i) == int(j):
@@ -76,7 +89,9 @@ class Metric:
             X = X.reshape(-1)            # frames stored as rows of width 1 (MPI jobs need array-valued frames)
         if X.ndim != 1:
             raise Unsupported('metric called with frames of unexpected rank')
-        return funcs.np_array([self.d(x, y) for x in X.cells()], dtype=float)
+        out = funcs.np_array([self.d(x, y) for x in X.cells()], dtype=float)
+        self.returned.append((out, list(out.cells())))
+        return out
 
     def table(self, model):
         N = self.N
@@ -102,7 +117,11 @@ def concrete_metric(T, scale):
     M = np.array([[float(x * scale) for x in row] for row in T], dtype=float)
 
     def metric(X, y):
-        return M[np.asarray(X, dtype=int).reshape(-1), int(np.asarray(y).reshape(-1)[0])].astype(float)
+        out = M[np.asarray(X, dtype=int).reshape(-1), int(np.asarray(y).reshape(-1)[0])].astype(float)
+        metric.returned.append((out, out.copy()))
+        return out
+    metric.returned = []
+    metric.untouched = lambda: all(np.array_equal(a, b, equal_nan=True) for a, b in metric.returned)
     return metric, M
 
 
@@ -295,6 +314,9 @@ def kcenters_job(N, mode, k=None, warm=0, tri=False, entry='function', shortcut=
                     kw2['init_centers'] = list(init)
                 res2 = call(M, X.copy(), kw2, True)
         except Exception as e:      # raised by the code under test
+            if os.environ.get('VERIF_DEBUG'):
+                import traceback
+                traceback.print_exc()
             exc = e
 
         def expected_config_error(cut_val):
@@ -402,6 +424,7 @@ def kcenters_job(N, mode, k=None, warm=0, tri=False, entry='function', shortcut=
                 ap.append(r[kk] <= 2 * opt)
             obs.append(('radius-at-most-twice-optimal', conj(ap)))
         so = _res_out(res)
+        obs.append(('arrays-returned-by-the-metric-not-written', M.untouched()))
         return PathOut(obs, so, witness, desc='k=%d centers' % len(res.center_indices))
     return path
 
@@ -517,6 +540,9 @@ def kmedoids_job(N, k, entry='pam', sweeps=1, warm=None, proposals=False, tri=Fa
             else:
                 raise ValueError(entry)
         except Exception as e:
+            if os.environ.get('VERIF_DEBUG'):
+                import traceback
+                traceback.print_exc()
             exc = e
 
         draws = [v for _, v in rnd_log]
@@ -659,6 +685,7 @@ def kmedoids_job(N, k, entry='pam', sweeps=1, warm=None, proposals=False, tri=Fa
             if proposals:
                 obs.append(('no-random-draw-when-proposals-are-supplied', len(draws) == 0))
         obs.append(('input-data-unmodified', conj([a == b for a, b in zip(X.cells(), X0.cells())])))
+        obs.append(('arrays-returned-by-the-metric-not-written', M.untouched()))
         return PathOut(obs, _res_out(res), witness, desc='%s -> %d centers' % (entry, len(res.center_indices)))
     return path
 
